@@ -80,6 +80,24 @@ def _write_project(bridge):
             f.write(text)
 
 
+def _prebuild_extraction():
+    """Best effort: build the model files and Extract.v (no proof file is among their dependencies) BEFORE the
+    full build, so that the driver is compiled from an extraction of the regenerated Gen*.v tables even when a
+    proof then breaks (make stops at the first error and would otherwise leave the previous score_model.ml)."""
+    try:
+        import subprocess
+        from vlib import common as C
+        with C.Lock("coq-score"):
+            mk, proj = os.path.join(_COQ_DIR, "Makefile"), os.path.join(_COQ_DIR, "_CoqProject")
+            if not os.path.exists(mk) or os.path.getmtime(mk) < os.path.getmtime(proj):
+                subprocess.run("coq_makefile -f _CoqProject -o Makefile", shell=True, cwd=_COQ_DIR, timeout=120,
+                               stdout=subprocess.DEVNULL, stderr=subprocess.DEVNULL)
+            subprocess.run("make -j4 TIMED=0 Extract.vo", shell=True, cwd=_COQ_DIR, timeout=900,
+                           stdout=subprocess.DEVNULL, stderr=subprocess.DEVNULL)
+    except Exception:   # never in the way of the real build, which reports its own errors
+        pass
+
+
 def translate():
     # GenAvx2.v (AVX2 lane tables, dispatcher table) and GenLane4.v (SSE2 / NEON interleaving
     # paths and store offsets; presence of the wrapper guards).  _CoqProject is (re)written with
@@ -89,6 +107,7 @@ def translate():
     from translate import score_avx2, score_lane4, score_scores
     a, b, c = score_avx2.run(), score_lane4.run(), score_scores.run()
     _write_project(True)
+    _prebuild_extraction()
     return dict(ok=a.get("ok", True) and b.get("ok", True) and c.get("ok", True),
                 notes=a.get("notes", []) + b.get("notes", []) + c.get("notes", []),
                 errors=a.get("errors", []) + b.get("errors", []) + c.get("errors", []))
